@@ -189,7 +189,7 @@ def run(ctx):
         "random bits, coded random/extreme magnitudes up to 2^40, dangling values) or at description level; only accepted streams count; "
         "non-trivial = at least one output picture, distinct by content hash.  correspondence: random arrays (incl. extreme values, "
         "arrays larger/smaller than the picture) through finish_component; unit lists of the streams and of fragment drop/duplicate mutants.")
-    n_streams = ctx.pick(110, 2500)
+    n_streams = ctx.pick(100, 2500)
     unit_cases, unit_meta = [], []
     accepted = 0
     for label, desc, data in H.gen_streams(ctx, n_streams):
